@@ -261,8 +261,8 @@ def riNext (ri : RI) (s : St) : Step × RI × St :=
 /-- pull at most `k` chunks (`none`: until exhausted) out of a `read_iter`, then drop it -/
 def riTake : Nat → Option Nat → RI → St → List Bytes → (List Bytes × Option Exc) × St
   | 0, _, _, s, acc => ((acc, some .fuel), s)
-  | _ + 1, some 0, _, s, acc => ((acc, none), s)
   | f + 1, k, ri, s, acc =>
+    if k = some 0 then ((acc, none), s) else
     match riNext ri s with
     | (.done, _, s) => ((acc, none), s)
     | (.err e, _, s) => ((acc, some e), s)
